@@ -247,6 +247,14 @@ def _sweep(rep, pp):
                             want = [rng.choice(["dir", "neu", "rob"]) for _ in range(k)]
                             conds = [w.upper() if rng.random() < 0.3 else w for w in want]
                         form = "index"
+                        if c % 4 == 0 and isinstance(conds, list):
+                            # a face named twice with two different types: whatever the reading, it must end up with exactly one type
+                            # (the last assignment, as for any sequence of assignments)
+                            other = {"dir": "rob", "rob": "dir", "neu": "rob"}[want[0]]
+                            faces = np.append(faces, faces[0])
+                            want = want + [other]
+                            conds = conds + [other]
+                            form = "index with a repeated face"
                         if c % 4 == 3:
                             mask = np.zeros(g.num_faces, dtype=bool)
                             mask[faces] = True
